@@ -42,6 +42,7 @@ const (
 
 	classColdRelated = "cold-related-first-use"
 	classBoundedPool = "preparestmt-bounded-pool"
+	classTargetInUse = "owner-first-use-target-in-use"
 
 	stallLimit = 30 * time.Second // no operation of any goroutine finished for this long = deadlock
 )
@@ -97,7 +98,7 @@ func (o Op) String() string {
 // Case is one generated case; it is also the replay unit (JSON).
 type Case struct {
 	G        int    `json:"g"`
-	Warm     string `json:"warm"`               // cold | parse | query | one
+	Warm     string `json:"warm"`               // cold | parse | query | one | targets
 	WarmOne  int    `json:"warm_one,omitempty"` // model warmed when Warm == "one"
 	Prepare  bool   `json:"prepare"`            // Config.PrepareStmt
 	SkipTx   bool   `json:"skip_tx"`            // Config.SkipDefaultTransaction
@@ -125,44 +126,98 @@ func (c *Case) String() string {
 
 func (c *Case) JSON() string { b, _ := json.Marshal(c); return string(b) }
 
-// familyWarm: every model type of the related family is parsed before the barrier. Parsing
-// Company, Author or Book parses the whole family (they reach every other member).
-func (c *Case) familyWarm() bool {
+// familySafe: the state of the schema cache at the barrier keeps concurrent use of the family
+// outside the two listed findings about first use (cold-related-first-use,
+// owner-first-use-target-in-use): every type of the family is parsed. Parsing Company, Author or
+// Book parses the whole first family (they reach every other member); no single type of the
+// second family does (an owner reaches Parcel, Parcel reaches nothing).
+//
+// Where the boundary of those findings lies (measured on the unchanged tree): the parse of a
+// model type X writes into the published schemas of the types X has relations to - the foreign
+// key field's DataType/GORMDataType/Size (guessRelation) and, for has-one/has-many, the entry
+// "_X_Field" of the target's Relationships.Relations map (parseRelation; under the target's Mux,
+// which no reader takes). So the first use of X races with (a) the concurrent first use of a type
+// related to X (cold-related-first-use) and (b) creates/updates/association saves whose statement
+// rows are of a has-target of X and which iterate that map in Statement.SelectAndOmitColumns
+// (owner-first-use-target-in-use), also when the target was parsed and used long before.
+// The only readers of that map outside the type's own parse are the Select/Omit(clause.Associations)
+// paths: association mode saves (Append/Replace run the nested save with Omit(clause.Associations)).
+// Race-free and therefore generated (the "targets" arrangement, see runConcurrent): the target type
+// parsed and queried before the barrier, then every goroutine makes its FIRST call on the second
+// family - mostly on one of the cold owner types - with any operation except an association mode
+// write; concurrent parses of different owners write the target's relation map one after the
+// other under the target's Mux.
+func (c *Case) familySafe(f int) bool {
 	switch c.Warm {
 	case "parse", "query":
 		return true
 	case "one":
-		return c.WarmOne == mCompany || c.WarmOne == mAuthor || c.WarmOne == mBook
+		return f == 1 && (c.WarmOne == mCompany || c.WarmOne == mAuthor || c.WarmOne == mBook)
 	}
 	return false
 }
 
-func touchesRelated(p []Op) bool {
+// assocWriteKinds save rows of the relation's target type through association mode; the nested save
+// runs with Omit(clause.Associations) and iterates the target's relation map.
+var assocWriteKinds = map[string]bool{"aappend": true, "areplace": true, "adelete": true, "aclear": true}
+
+// phaseAKinds: first calls on the second family while its owner types are cold.
+var phaseAKinds = []string{"create", "batch", "save", "tree", "tree", "find", "first", "count", "pluck", "preload", "preload", "joins", "afind", "acount", "update", "updates", "delete", "delrange"}
+
+func isPhaseAOp(o Op) bool {
+	return o.K != "tx" && family(o.M) == 2 && !assocWriteKinds[o.K]
+}
+
+func touchesFamily(p []Op, f int) bool {
 	for _, o := range p {
 		if o.K == "tx" {
-			if touchesRelated(o.Sub) {
+			if touchesFamily(o.Sub, f) {
 				return true
 			}
-		} else if related(o.M) {
+		} else if family(o.M) == f {
 			return true
 		}
 	}
 	return false
 }
 
-// inColdRelatedClass: the listed finding's class - the family is not completely parsed at the
-// barrier and at least two goroutines use family types.
-func (c *Case) inColdRelatedClass() bool {
-	if c.familyWarm() {
-		return false
-	}
+func (c *Case) familyGoroutines(f int) int {
 	n := 0
 	for _, p := range c.Programs {
-		if touchesRelated(p) {
+		if touchesFamily(p, f) {
 			n++
 		}
 	}
-	return n >= 2
+	return n
+}
+
+// inFirstUseClass: the case lies in one of the listed first-use findings' classes. In the
+// "targets" arrangement the first operations run in a phase of their own, after which the whole
+// second family is parsed: there the second family is judged by the first operations only.
+func (c *Case) inFirstUseClass() bool {
+	if c.Warm == "targets" {
+		for _, p := range c.Programs {
+			if touchesFamily(p[:1], 2) && !isPhaseAOp(p[0]) {
+				return true
+			}
+			if touchesFamily(p[:1], 1) {
+				return true
+			}
+		}
+		rest := 0
+		for _, p := range c.Programs {
+			if touchesFamily(p[1:], 1) {
+				rest++
+			}
+		}
+		return rest >= 2
+	}
+	for f := 1; f <= 2; f++ {
+		if !c.familySafe(f) && c.familyGoroutines(f) >= 2 {
+			return true
+		}
+	}
+	return false
 }
 
 // ---- generator ----------------------------------------------------------------------------------
@@ -171,27 +226,65 @@ var assocRels = map[int][]string{
 	mAuthor:  {"Company", "Profile", "Books", "Tags"},
 	mBook:    {"Author", "Reviews"},
 	mCompany: {"Staff"},
+	mDepot:   {"Parcels"},
+	mCourier: {"Parcels"},
+	mCustoms: {"Parcels"},
+	mSorter:  {"Parcel"},
 }
 
 var preloadRels = map[int][]string{
 	mAuthor:  {"Company", "Profile", "Books", "Books.Reviews", "Tags", "Company.Staff"},
 	mBook:    {"Author", "Reviews", "Author.Profile", "Author.Tags"},
 	mCompany: {"Staff", "Staff.Books", "Staff.Profile"},
+	mDepot:   {"Parcels"},
+	mCourier: {"Parcels"},
+	mCustoms: {"Parcels"},
+	mSorter:  {"Parcel"},
 }
 
 var joinRels = map[int][]string{
 	mAuthor: {"Company", "Profile"},
 	mBook:   {"Author", "Author.Company"},
+	mSorter: {"Parcel"},
 }
 
 var (
 	simpleKinds = []string{"create", "create", "batch", "find", "find", "first", "count", "pluck", "update", "updates", "save", "delete", "delrange"}
 	relKinds    = []string{"tree", "tree", "preload", "preload", "joins", "aappend", "aappend", "afind", "acount", "areplace", "adelete", "aclear"}
+	// operations whose statement cannot be prepared (missing table / column): the error must be the
+	// same as alone, also for a goroutine that waits for another goroutine's failing preparation
+	badKinds = []string{"badraw", "badtable", "badexec", "badcol"}
 )
 
-func genOp(t *rapid.T, allowRelated bool, depth int) Op {
+// palette: which model families a goroutine may use (the relation-free models always).
+type palette struct{ f1, f2 bool }
+
+func (p palette) models() []int {
+	ms := append([]int(nil), freeModels...)
+	if p.f1 {
+		ms = append(ms, family1Models...)
+	}
+	if p.f2 {
+		ms = append(ms, family2Models...)
+	}
+	return ms
+}
+
+func (p palette) pick(f1, f2 []int) []int {
+	var ms []int
+	if p.f1 {
+		ms = append(ms, f1...)
+	}
+	if p.f2 {
+		ms = append(ms, f2...)
+	}
+	return ms
+}
+
+func genOp(t *rapid.T, pal palette, depth int) Op {
 	kinds := append([]string(nil), simpleKinds...)
-	if allowRelated {
+	kinds = append(kinds, badKinds...)
+	if pal.f1 || pal.f2 {
 		kinds = append(kinds, relKinds...)
 	}
 	if depth < 2 {
@@ -202,20 +295,29 @@ func genOp(t *rapid.T, allowRelated bool, depth int) Op {
 	if o.K == "tx" {
 		n := rapid.IntRange(1, 3).Draw(t, "txlen")
 		for i := 0; i < n; i++ {
-			o.Sub = append(o.Sub, genOp(t, allowRelated, depth+1))
+			o.Sub = append(o.Sub, genOp(t, pal, depth+1))
 		}
 		o.Commit = rapid.IntRange(0, 2).Draw(t, "commit") != 0
 		return o
 	}
+	fillOp(t, &o, pal)
+	return o
+}
+
+// fillOp draws the arguments of a non-block operation of kind o.K.
+func fillOp(t *rapid.T, o *Op, pal palette) {
 	o.A = rapid.IntRange(1, nKeys).Draw(t, "a")
 	o.V = rapid.IntRange(0, 9).Draw(t, "v")
 	switch o.K {
+	case "badraw", "badtable", "badexec", "badcol":
+		o.M = mGadget
+		o.V = rapid.IntRange(0, 2).Draw(t, "text") // three distinct failing texts per kind
 	case "tree":
-		o.M = mAuthor
+		o.M = rapid.SampledFrom(pal.pick([]int{mAuthor, mAuthor}, parcelOwners)).Draw(t, "owner")
 		o.B = rapid.IntRange(1, nKeys).Draw(t, "b")
 		o.V = rapid.IntRange(0, 31).Draw(t, "parts")
 	case "preload":
-		o.M = rapid.SampledFrom([]int{mAuthor, mAuthor, mBook, mCompany}).Draw(t, "owner")
+		o.M = rapid.SampledFrom(pal.pick([]int{mAuthor, mAuthor, mBook, mCompany}, parcelOwners)).Draw(t, "owner")
 		rels := preloadRels[o.M]
 		mask := rapid.IntRange(1, 1<<len(rels)-1).Draw(t, "rels")
 		var pick []string
@@ -226,32 +328,48 @@ func genOp(t *rapid.T, allowRelated bool, depth int) Op {
 		}
 		o.R = strings.Join(pick, ",")
 	case "joins":
-		o.M = rapid.SampledFrom([]int{mAuthor, mBook}).Draw(t, "owner")
+		o.M = rapid.SampledFrom(pal.pick([]int{mAuthor, mBook}, []int{mSorter})).Draw(t, "owner")
 		o.R = rapid.SampledFrom(joinRels[o.M]).Draw(t, "rel")
 	case "aappend", "afind", "acount", "areplace", "adelete", "aclear":
-		o.M = rapid.SampledFrom([]int{mAuthor, mAuthor, mAuthor, mBook, mCompany}).Draw(t, "owner")
+		o.M = rapid.SampledFrom(pal.pick([]int{mAuthor, mAuthor, mAuthor, mBook, mCompany}, parcelOwners)).Draw(t, "owner")
 		o.R = rapid.SampledFrom(assocRels[o.M]).Draw(t, "rel")
 		o.B = rapid.IntRange(1, nKeys).Draw(t, "b")
 	default:
-		if allowRelated {
-			o.M = rapid.IntRange(0, nModels-1).Draw(t, "model")
-		} else {
-			o.M = rapid.IntRange(mGadget, mWidget).Draw(t, "model")
-		}
+		o.M = rapid.SampledFrom(pal.models()).Draw(t, "model")
 		if o.K == "create" && o.M == mAuthor {
 			o.B = rapid.IntRange(0, nKeys).Draw(t, "company")
+		}
+	}
+}
+
+func genProgram(t *rapid.T, pal palette, n int) []Op {
+	p := make([]Op, n)
+	for i := range p {
+		p[i] = genOp(t, pal, 0)
+	}
+	return p
+}
+
+// genOwnerOp: a first call on one of Parcel's owner types (see phaseAKinds).
+func genOwnerOp(t *rapid.T) Op {
+	o := Op{K: rapid.SampledFrom(phaseAKinds).Draw(t, "ownerKind")}
+	o.Y = rapid.IntRange(0, 3).Draw(t, "yield") == 0
+	fillOp(t, &o, palette{f2: true})
+	if o.K == "joins" {
+		o.M, o.R = mSorter, "Parcel"
+	} else if family(o.M) != 2 || (o.M == mParcel && rapid.IntRange(0, 3).Draw(t, "keepParcel") != 0) {
+		o.M = rapid.SampledFrom(parcelOwners).Draw(t, "ownerType")
+		if o.R != "" {
+			o.R = parcelRel(o.M)
 		}
 	}
 	return o
 }
 
-func genProgram(t *rapid.T, allowRelated bool) []Op {
-	n := rapid.IntRange(1, maxOps).Draw(t, "len")
-	p := make([]Op, n)
-	for i := range p {
-		p[i] = genOp(t, allowRelated, 0)
-	}
-	return p
+// firstUseOpen: the first-use findings are listed as open (they are two faces of one defect: a
+// parse writes into published schemas).
+func firstUseOpen() bool {
+	return harness.OpenClass("C07", classColdRelated) || harness.OpenClass("C07", classTargetInUse)
 }
 
 func genCase(t *rapid.T) *Case {
@@ -266,7 +384,10 @@ func genCase(t *rapid.T) *Case {
 	default:
 		c.G = rapid.IntRange(17, 32).Draw(t, "G")
 	}
-	c.Warm = rapid.SampledFrom([]string{"cold", "cold", "cold", "parse", "parse", "parse", "query", "query", "one", "one"}).Draw(t, "warm")
+	c.Warm = rapid.SampledFrom([]string{"cold", "cold", "cold", "parse", "parse", "query", "query", "one", "one", "targets", "targets", "targets"}).Draw(t, "warm")
+	if w := os.Getenv("VERIF_C07_WARM"); w != "" { // development aid: measure one arrangement
+		c.Warm = w
+	}
 	if c.Warm == "one" {
 		c.WarmOne = rapid.IntRange(0, nModels-1).Draw(t, "warmOne")
 	}
@@ -281,18 +402,52 @@ func genCase(t *rapid.T) *Case {
 		c.MaxOpen = 0
 	}
 
-	// The listed finding: concurrent first use of related model types. While it is open the
-	// generator keeps cold cases out of that class by construction: at most one goroutine (drawn)
-	// uses the related family, every other goroutine uses the relation-free models only.
-	restricted := !c.familyWarm() && harness.OpenClass("C07", classColdRelated)
-	famG := -1
-	if restricted {
+	// The listed first-use findings. While they are open the generator keeps cases out of their
+	// classes by construction: a family that is not completely parsed at the barrier is used by at
+	// most one goroutine (drawn per family); every other goroutine uses the other family, if that
+	// one is parsed, and the relation-free models. In the "targets" arrangement the second family
+	// is used by everybody: first calls (phase A) on the cold owner types, the rest of the programs
+	// (phase B) after all of the family has been parsed.
+	open := firstUseOpen()
+	only := [3]int{-2, -2, -2} // -2: everybody may use the family; -1: nobody; g: only goroutine g
+	for f := 1; f <= 2; f++ {
+		if open && !c.familySafe(f) && !(f == 2 && c.Warm == "targets") {
+			only[f] = rapid.IntRange(-1, c.G-1).Draw(t, fmt.Sprintf("family%dGoroutine", f))
+		}
+	}
+	if only[1] != -2 || only[2] != -2 {
 		evid.Excluded(classColdRelated)
-		famG = rapid.IntRange(-1, c.G-1).Draw(t, "familyGoroutine")
+	}
+	if open && c.Warm == "targets" {
+		evid.Excluded(classTargetInUse)
+	}
+	// a storm: every goroutine starts with the same statement text (a failing or a good one)
+	var storm *Op
+	if c.Warm != "targets" && rapid.IntRange(0, 2).Draw(t, "storm") == 0 {
+		o := Op{K: rapid.SampledFrom([]string{"badraw", "badtable", "badexec", "badcol", "first", "count"}).Draw(t, "stormKind")}
+		fillOp(t, &o, palette{})
+		storm = &o
 	}
 	c.Programs = make([][]Op, c.G)
 	for g := range c.Programs {
-		c.Programs[g] = genProgram(t, !restricted || g == famG)
+		pal := palette{f1: only[1] == -2 || only[1] == g, f2: only[2] == -2 || only[2] == g}
+		n := rapid.IntRange(1, maxOps).Draw(t, "len")
+		var first []Op
+		switch {
+		case storm != nil:
+			first = []Op{*storm}
+		case c.Warm == "targets" && rapid.IntRange(0, 5).Draw(t, "ownerFirst") != 0:
+			// target warm, owners cold: the goroutine's first call is on an owner type
+			first = []Op{genOwnerOp(t)}
+		case c.Warm == "targets" && open:
+			// or on a relation-free model
+			o := Op{K: rapid.SampledFrom(append(append([]string(nil), simpleKinds...), badKinds...)).Draw(t, "freeKind")}
+			fillOp(t, &o, palette{})
+			first = []Op{o}
+		case c.Warm == "targets":
+			first = genProgram(t, palette{f1: true, f2: true}, 1)
+		}
+		c.Programs[g] = append(first, genProgram(t, pal, n-len(first))...)
 	}
 	return c
 }
@@ -332,6 +487,23 @@ func build(m, g, a, b, v int) interface{} {
 		return &Gadget{ID: id, Name: fmt.Sprintf("g%d", v), Qty: v}
 	case mWidget:
 		return &Widget{ID: id, Code: fmt.Sprintf("w%d", v), Weight: float64(v) / 2}
+	case mParcel:
+		x := &Parcel{ID: id, Label: fmt.Sprintf("p%d", v), Weight: v, DepotID: pkey(g, 1+v%nKeys), CourierID: pkey(g, 1+(v+1)%nKeys)}
+		if v%2 == 0 {
+			x.CustomsID = pkey(g, 1+(v+2)%nKeys)
+		}
+		if v%3 == 0 {
+			x.SorterID = pkey(g, 1+(v+3)%nKeys)
+		}
+		return x
+	case mDepot:
+		return &Depot{ID: id, Name: fmt.Sprintf("de%d", v)}
+	case mCourier:
+		return &Courier{ID: id, Name: fmt.Sprintf("cr%d", v)}
+	case mCustoms:
+		return &Customs{ID: id, Name: fmt.Sprintf("cu%d", v)}
+	case mSorter:
+		return &Sorter{ID: id, Name: fmt.Sprintf("so%d", v)}
 	}
 	panic("harness: build")
 }
@@ -365,12 +537,16 @@ func changes(m, v int) map[string]interface{} {
 		return map[string]interface{}{"name": fmt.Sprintf("G%d", v), "qty": 50 + v}
 	case mWidget:
 		return map[string]interface{}{"code": fmt.Sprintf("W%d", v), "weight": float64(v) + 0.25}
+	case mParcel:
+		return map[string]interface{}{"label": fmt.Sprintf("P%d", v), "weight": 70 + v}
+	case mDepot, mCourier, mCustoms, mSorter:
+		return map[string]interface{}{"name": fmt.Sprintf("%s%d", strings.ToUpper(modelNames[m][:2]), v)}
 	}
 	panic("harness: changes")
 }
 
 func firstColumn(m int) string {
-	return [nModels]string{"name", "name", "bio", "title", "stars", "label", "name", "code"}[m]
+	return [nModels]string{"name", "name", "bio", "title", "stars", "label", "name", "code", "label", "name", "name", "name", "name"}[m]
 }
 
 func errText(err error) string {
@@ -408,6 +584,10 @@ func targets(owner int, rel string, g, b, v int) interface{} {
 		}
 	case mCompany:
 		return &[]Author{{ID: keyOf(g, b), Name: fmt.Sprintf("au%d", v)}}
+	case mDepot, mCourier, mCustoms:
+		return &[]Parcel{{ID: keyOf(g, b), Label: fmt.Sprintf("p%d", v)}, {ID: keyOf(g, 1+b%nKeys), Label: "second"}}
+	case mSorter:
+		return &Parcel{ID: keyOf(g, b), Label: fmt.Sprintf("p%d", v)}
 	}
 	panic("harness: targets")
 }
@@ -426,6 +606,8 @@ func targetModel(owner int, rel string) int {
 		return mAuthor
 	case "Reviews":
 		return mReview
+	case "Parcels", "Parcel":
+		return mParcel
 	}
 	panic("harness: targetModel")
 }
@@ -451,7 +633,41 @@ func exec(db *gorm.DB, g int, o Op) string {
 		v := buildSlice(o.M, g, []int{o.A, 1 + o.A%nKeys}, o.V)
 		r := db.Create(v)
 		return fmt.Sprintf("%s ra=%d %s", errText(r.Error), r.RowsAffected, render(v))
+	case "badraw":
+		var n []int64
+		r := db.Raw(fmt.Sprintf("SELECT id FROM c07_missing_%d WHERE id = ?", o.V), keyOf(g, o.A)).Scan(&n)
+		return fmt.Sprintf("%s ra=%d %v", errText(r.Error), r.RowsAffected, n)
+	case "badtable":
+		var out []Gadget
+		r := db.Table(fmt.Sprintf("c07_absent_%d", o.V)).Where("id = ?", keyOf(g, o.A)).Find(&out)
+		return fmt.Sprintf("%s ra=%d %s", errText(r.Error), r.RowsAffected, render(&out))
+	case "badexec":
+		r := db.Exec(fmt.Sprintf("UPDATE c07_gone_%d SET qty = ? WHERE id = ?", o.V), o.A, keyOf(g, o.A))
+		return fmt.Sprintf("%s ra=%d", errText(r.Error), r.RowsAffected)
+	case "badcol":
+		var n int64
+		r := db.Model(&Gadget{}).Where(fmt.Sprintf("no_such_column_%d = ?", o.V), keyOf(g, o.A)).Count(&n)
+		return fmt.Sprintf("%s n=%d", errText(r.Error), n)
 	case "tree":
+		if family(o.M) == 2 {
+			var v interface{}
+			ps := []Parcel{{ID: keyOf(g, o.A), Label: "tp1", Weight: o.V}, {ID: keyOf(g, o.B), Label: "tp2"}}
+			if o.V&1 != 0 {
+				ps = ps[:1]
+			}
+			switch o.M {
+			case mDepot:
+				v = &Depot{ID: keyOf(g, o.A), Name: "tree", Parcels: ps}
+			case mCourier:
+				v = &Courier{ID: keyOf(g, o.A), Name: "tree", Parcels: ps}
+			case mCustoms:
+				v = &Customs{ID: keyOf(g, o.A), Name: "tree", Parcels: ps}
+			default:
+				v = &Sorter{ID: keyOf(g, o.A), Name: "tree", Parcel: &ps[0]}
+			}
+			r := db.Create(v)
+			return fmt.Sprintf("%s ra=%d %s", errText(r.Error), r.RowsAffected, render(v))
+		}
 		a := &Author{ID: keyOf(g, o.A), Name: "tree", Age: o.V}
 		if o.V&1 != 0 {
 			a.Company = &Company{ID: keyOf(g, o.B), Name: "treeco"}
@@ -615,6 +831,10 @@ func seed(db *sql.DB, G int) {
 		add("author_tags", "(%d,%d),(%d,%d)", k1, k1, k1, k2)
 		add("gadgets", "(%d,'seedg1',1),(%d,'seedg2',2)", k1, k2)
 		add("widgets", "(%d,'seedw1',1.5,NULL),(%d,'seedw2',2.5,NULL)", k1, k2)
+		add("parcels", "(%d,'seedp1',5,%d,%d,%d,%d),(%d,'seedp2',6,%d,%d,NULL,NULL)", k1, k1, k1, k1, k1, k2, k1, k2)
+		for _, tb := range []string{"depots", "couriers", "customs", "sorters"} {
+			add(tb, "(%d,'seed1'),(%d,'seed2')", k1, k2)
+		}
 	}
 	tx, err := db.Begin()
 	if err != nil {
@@ -651,6 +871,12 @@ func (d *caseDB) warm(c *Case) {
 		}
 	case "one":
 		parse(c.WarmOne)
+	case "targets":
+		// the shared target type is parsed and in use; its owners are not
+		parse(mParcel)
+		if err := d.DB.Limit(1).Find(newSlice(mParcel)).Error; err != nil {
+			panic("harness: warm query Parcel: " + err.Error())
+		}
 	}
 }
 
@@ -717,32 +943,74 @@ func runProgram(db *gorm.DB, g int, prog []Op, res []string) {
 	}
 }
 
-// runConcurrent: all goroutines through one handle, released by one barrier; returns only after
-// every goroutine has finished.
+// phases: the "targets" arrangement runs the first operation of every program in a phase of its own
+// (target type warm, owner types cold), then parses the rest of the second family, then runs the
+// remaining operations; every other arrangement is one phase.
+func (c *Case) phases() [][2]int {
+	if c.Warm == "targets" {
+		return [][2]int{{0, 1}, {1, 1 << 30}}
+	}
+	return [][2]int{{0, 1 << 30}}
+}
+
+func slice(p []Op, ph [2]int) (int, int) {
+	lo, hi := ph[0], ph[1]
+	if lo > len(p) {
+		lo = len(p)
+	}
+	if hi > len(p) {
+		hi = len(p)
+	}
+	return lo, hi
+}
+
+// betweenPhases: after phase A of the "targets" arrangement the whole second family is parsed.
+func (d *caseDB) betweenPhases(c *Case, next int) {
+	if c.Warm == "targets" && next == 1 {
+		for _, m := range family2Models {
+			stmt := &gorm.Statement{DB: d.DB}
+			if err := stmt.Parse(newModel(m)); err != nil {
+				panic("harness: parse " + modelNames[m] + ": " + err.Error())
+			}
+		}
+	}
+}
+
+// runConcurrent: all goroutines through one handle, released by one barrier per phase; returns only
+// after every goroutine has finished.
 func runConcurrent(c *Case) outcome {
 	d := openCase(c)
 	defer d.Close()
 	d.warm(c)
 	out := outcome{results: make([][]string, c.G)}
+	for g := range out.results {
+		out.results[g] = make([]string, len(c.Programs[g]))
+	}
 	if c.Procs > 0 {
 		defer runtime.GOMAXPROCS(runtime.GOMAXPROCS(c.Procs))
 	}
-	start := make(chan struct{})
-	var wg sync.WaitGroup
-	for g := 0; g < c.G; g++ {
-		out.results[g] = make([]string, len(c.Programs[g]))
-		wg.Add(1)
-		go func(g int) {
-			defer wg.Done()
-			<-start
-			runProgram(d.DB, g, c.Programs[g], out.results[g])
-		}(g)
-	}
-	close(start)
-	done := make(chan struct{})
-	go func() { wg.Wait(); close(done) }()
-	if out.stalled = supervise(c, "concurrent run", done, func() { _ = d.mem.SQL.Close() }); out.stalled != "" {
-		return out
+	for pi, ph := range c.phases() {
+		d.betweenPhases(c, pi)
+		start := make(chan struct{})
+		var wg sync.WaitGroup
+		for g := 0; g < c.G; g++ {
+			lo, hi := slice(c.Programs[g], ph)
+			if lo == hi {
+				continue
+			}
+			wg.Add(1)
+			go func(g, lo, hi int) {
+				defer wg.Done()
+				<-start
+				runProgram(d.DB, g, c.Programs[g][lo:hi], out.results[g][lo:hi])
+			}(g, lo, hi)
+		}
+		close(start)
+		done := make(chan struct{})
+		go func() { wg.Wait(); close(done) }()
+		if out.stalled = supervise(c, "concurrent run", done, func() { _ = d.mem.SQL.Close() }); out.stalled != "" {
+			return out
+		}
 	}
 	out.rows = dump(d.mem.SQL)
 	return out
@@ -805,12 +1073,18 @@ func runSerial(c *Case) outcome {
 	defer d.Close()
 	d.warm(c)
 	out := outcome{results: make([][]string, c.G)}
+	for g := range out.results {
+		out.results[g] = make([]string, len(c.Programs[g]))
+	}
 	done := make(chan struct{})
 	go func() {
 		defer close(done)
-		for g := 0; g < c.G; g++ {
-			out.results[g] = make([]string, len(c.Programs[g]))
-			runProgram(d.DB, g, c.Programs[g], out.results[g])
+		for pi, ph := range c.phases() {
+			d.betweenPhases(c, pi)
+			for g := 0; g < c.G; g++ {
+				lo, hi := slice(c.Programs[g], ph)
+				runProgram(d.DB, g, c.Programs[g][lo:hi], out.results[g][lo:hi])
+			}
 		}
 	}()
 	if out.stalled = supervise(c, "serial run", done, func() { _ = d.mem.SQL.Close() }); out.stalled != "" {
@@ -909,7 +1183,7 @@ func firstModel(p []Op) int {
 
 func runCase(rt *rapid.T) {
 	c := genCase(rt)
-	if c.inColdRelatedClass() && harness.OpenClass("C07", classColdRelated) {
+	if c.inFirstUseClass() && firstUseOpen() {
 		rt.Fatalf("harness: generator produced a case of the excluded class: %s", c)
 	}
 	evid.Journal(c.JSON())
@@ -919,20 +1193,20 @@ func runCase(rt *rapid.T) {
 
 	// ---- evidence ----
 	kinds := map[string]bool{}
-	relG := 0
 	firstUse := map[int]int{}
+	owners := map[int]bool{}
 	for _, p := range c.Programs {
 		opKinds(p, kinds)
-		if touchesRelated(p) {
-			relG++
-		}
 		firstUse[firstModel(p)]++
+		if m := firstModel(p); family(m) == 2 && m != mParcel {
+			owners[m] = true
+		}
 	}
 	assoc := false
 	var cl []string
 	for k := range kinds {
 		cl = append(cl, "op:"+k)
-		if k == "preload" || k == "joins" || k == "tree" || strings.HasPrefix(k, "a") {
+		if k == "preload" || k == "joins" || k == "tree" || (strings.HasPrefix(k, "a") && k != "badraw") {
 			assoc = true
 		}
 	}
@@ -947,36 +1221,53 @@ func runCase(rt *rapid.T) {
 		cl = append(cl, "G:17-32")
 	}
 	cl = append(cl, "cache:"+c.Warm, fmt.Sprintf("prepare:%v", c.Prepare), fmt.Sprintf("skipdefaulttx:%v", c.SkipTx), fmt.Sprintf("procs:%d", c.Procs), fmt.Sprintf("maxopen:%d", c.MaxOpen))
-	cold := c.Warm == "cold" || c.Warm == "one"
-	if cold {
-		shared := false
-		for _, n := range firstUse {
-			if n >= 2 {
-				shared = true
-			}
+	cold := c.Warm == "cold" || c.Warm == "one" || c.Warm == "targets"
+	same := 0
+	for _, n := range firstUse {
+		if n > same {
+			same = n
 		}
-		if shared {
-			cl = append(cl, "cold:same-type-first-use-by-several")
+	}
+	if same >= 2 {
+		cl = append(cl, "first-op:same-type-by-several")
+		if o := c.Programs[0][0]; same == c.G && strings.HasPrefix(o.K, "bad") {
+			cl = append(cl, "first-op:same-failing-text-by-all")
+		}
+	}
+	for f := 1; f <= 2; f++ {
+		n := c.familyGoroutines(f)
+		if c.Warm == "targets" && f == 2 {
+			continue // labelled by the number of distinct cold owner types below
 		}
 		switch {
-		case c.familyWarm():
-			cl = append(cl, "cold:family-warm-others-cold")
-		case relG == 1:
-			cl = append(cl, "cold:one-family-goroutine")
-		case relG == 0:
-			cl = append(cl, "cold:unrelated-only")
-		default:
-			cl = append(cl, "cold:related-from-several")
+		case c.Warm == "parse" || c.Warm == "query":
+			if n >= 2 {
+				cl = append(cl, fmt.Sprintf("family%d:warm-used-by-several", f))
+			}
+		case c.familySafe(f):
+			if n >= 2 {
+				cl = append(cl, fmt.Sprintf("family%d:partly-cold-used-by-several", f))
+			}
+		case n == 1:
+			cl = append(cl, fmt.Sprintf("family%d:cold-used-by-one", f))
+		case n >= 2:
+			cl = append(cl, fmt.Sprintf("family%d:cold-used-by-several", f))
 		}
-	} else if relG >= 2 {
-		cl = append(cl, "warm:related-from-several")
+	}
+	if c.Warm == "targets" {
+		switch {
+		case len(owners) >= 3:
+			cl = append(cl, "target-warm:first-call-on-3+-distinct-cold-owner-types")
+		case len(owners) == 2:
+			cl = append(cl, "target-warm:first-call-on-2-distinct-cold-owner-types")
+		}
 	}
 	nt := (cold && c.G >= 2) || (!cold && c.G >= 4 && assoc)
 	evid.Case(c.JSON(), nt, c.String(), cl...)
 }
 
 func TestC07(t *testing.T) {
-	evid.Rule("C07: G in 2..32 goroutines (four size buckets) released by one barrier, each running 1-8 operations (Create single/batch/with nested associations, Save, Find, First, Count, Pluck, Preload incl. nested, relation Joins, Update, Updates, Delete, Transaction blocks with nested blocks and rollback, Association Append/Replace/Delete/Clear/Find/Count) through one shared *gorm.DB over six related model types (belongs-to, has-one, has-many, many-to-many, with cycles) and two relation-free ones, on explicit keys private to the goroutine; schema cache cold / one type parsed / all parsed / all queried before the barrier; PrepareStmt on/off; default transactions on/off; GOMAXPROCS 1/2/4/default; generated Gosched points. Judged by the race detector (report count read after every case) and by equality of every result and of all final rows with a serial run on a fresh database. Non-trivial = part of the schema cache is cold at the barrier (G >= 2 always), or warm cache with >= 4 goroutines and >= 1 association/preload/joins/nested-create operation; distinct = configuration + programs")
+	evid.Rule("C07: G in 2..32 goroutines (four size buckets) released by one barrier, each running 1-8 operations (Create single/batch/with nested associations, Save, Find, First, Count, Pluck, Preload incl. nested, relation Joins, Update, Updates, Delete, Transaction blocks with nested blocks and rollback, Association Append/Replace/Delete/Clear/Find/Count, and statements that cannot be prepared: Raw/Table/Exec on a missing table, a missing column - three texts each, shared by all goroutines) through one shared *gorm.DB over a cyclic family of six related model types (belongs-to, has-one, has-many, many-to-many), a second family (one target type with four has-many/has-one owner types) and two relation-free types, on explicit keys private to the goroutine; in a third of the cases all goroutines start with the same statement text (failing or good); schema cache cold / one type parsed / only the shared target type parsed and queried (owners first used concurrently) / all parsed / all queried before the barrier; PrepareStmt on/off; default transactions on/off; pool unbounded or 1/2/4; GOMAXPROCS 1/2/4/default; generated Gosched points. Judged by the race detector (report count read after every case), by equality of every result (error texts, recovered panics included) and of all final rows with a serial run on a fresh database, and by a deadlock watchdog. Non-trivial = part of the schema cache is cold at the barrier (G >= 2 always), or warm cache with >= 4 goroutines and >= 1 association/preload/joins/nested-create operation; distinct = configuration + programs")
 	evid.Assume("SQLite's single-writer rule is hidden by the harness: connections run read_uncommitted and writers queue on one harness mutex (BEGIN..COMMIT or one autocommit write); write paths of two goroutines therefore overlap only outside transactions (SkipDefaultTransaction cases)")
 	evid.Assume("the runtime's schedule is sampled, not enumerated; the race detector reports unsynchronised conflicting accesses it observes within its history window")
 	if !raceEnabled {
